@@ -30,6 +30,7 @@ PROBES = [
     "subroutine s\nx = (/ (a <= b) /)\nend subroutine s\n",
     "subroutine s\nx = f(F2PY_EXPR_TUPLE_7 + 1)\nend subroutine s\n",
     "program p\n; x = 1\nend program p\n",
+    "program p\n  x = 1\n  sel1:\nend program p\n",
 ]
 
 
@@ -109,8 +110,16 @@ def classify(o, src, case, std, keep, dt):
 
 
 def one(src, case, std, keep, res):
+    import hashlib
+    if len(src.splitlines()) >= 3:
+        res.setdefault("keys", []).append(hashlib.sha256((std + str(keep) + src).encode("utf-8", "replace")).hexdigest()[:10])
     t0 = time.time()
-    o = real.try_parse(src, std=std, ignore_comments=not keep)
+    try:
+        o = engine.time_limited(lambda: real.try_parse(src, std=std, ignore_comments=not keep), 20)
+    except engine.InputTimeout:
+        res["findings"].append({"signature": "slow:fuzz-input", "what": "no result within 20 s on %r" % src[:200],
+                                "replay": {"case": case, "source": src, "std": std, "keep": keep}})
+        return
     if o.kind == "tree":
         try:
             str(o.tree)
@@ -142,7 +151,7 @@ def one(src, case, std, keep, res):
 
 def run_case(case):
     rng = random.Random(case["seed"])
-    res = {"key": [case["kind"], case["seed"]], "counts": {"kind:" + case["kind"]: 1}, "findings": [], "nontrivial": True}
+    res = {"key": [case["kind"], case["seed"]], "counts": {"kind:" + case["kind"]: 1}, "findings": [], "nontrivial": True, "keys": []}
     std = case.get("std", "f2008")
     keep = case.get("keep", False)
     n = 0
@@ -183,13 +192,13 @@ def run_case(case):
                     continue
                 t0 = time.time()
                 try:
-                    o = real.try_parse(src, std=st_, free=True)
-                except engine.CaseTimeout:
-                    raise
-                dt = time.time() - t0
+                    engine.time_limited(lambda: real.try_parse(src, std=st_, free=True), 20)
+                    dt = time.time() - t0
+                except engine.InputTimeout:
+                    dt = 21.0
                 n += 1
                 if dt > 20:
-                    res["findings"].append({"signature": "slow:" + name, "what": "%s(24) under %s took %.1fs" % (name, st_, dt),
+                    res["findings"].append({"signature": "slow:" + name, "what": "%s(24) under %s did not return within 20 s" % (name, st_),
                                             "replay": {"case": case, "source": src, "std": st_}})
         res["sample"] = {"kind": "scale"}
     elif case["kind"] == "utf8":
@@ -218,7 +227,7 @@ def run_case(case):
 
 
 def cases(tier, seed):
-    out = [{"kind": "probe", "seed": 0}, {"kind": "utf8", "seed": 0}, {"kind": "scale", "seed": 0, "_timeout": 120}]
+    out = [{"kind": "probe", "seed": 0}, {"kind": "utf8", "seed": 0}, {"kind": "scale", "seed": 0, "_timeout": 1500}]
     nb = util.tier_n(tier, 48, 600)
     for i, s in enumerate(util.seeds(seed, nb, 6)):
         out.append({"kind": "mutant", "seed": s, "n": 25, "std": "f2008" if i % 2 else "f2003", "keep": i % 4 == 3, "_timeout": 600})
